@@ -632,6 +632,13 @@ class MapPartitions(Blockwise):
     def _has_partition_info(self):
         return has_keyword(self.func, "partition_info")
 
+    def rewrite(self, kind: str, rewritten: dict | None = None):
+        if kind == "tune" and self._has_partition_info:
+            # the function sees the position of every partition; "tune"
+            # rewrites (IO fusion) change the partitioning below us
+            return self
+        return super().rewrite(kind, rewritten)
+
     def _task(self, index: int):
         args = [self._blockwise_arg(op, index) for op in self.args]
         kwargs = (self.kwargs if self.kwargs is not None else {}).copy()
@@ -2844,6 +2851,9 @@ class Partitions(Expr):
 
         if isinstance(self.frame, LocBase) and not self.frame._partitions_aligned:
             # output partition i is not made from partition i of the frame
+            return
+        if isinstance(self.frame, MapPartitions) and self.frame._has_partition_info:
+            # the function is told the position of each partition
             return
         if isinstance(self.frame, Blockwise) and not isinstance(
             self.frame, (BlockwiseIO, Fused, SetIndexBlockwise)
